@@ -42,7 +42,7 @@ VALUES = ['a', 'b', 'p\x0cq', 'x,y', '', 'u\x0bv', '1', '"q"', 'm\x1cn', 'c', '2
 def case_strategy(draw):
     regime = draw(st.sampled_from(['small', 'small', 'large']))
     ncols = draw(st.integers(2, 5))
-    s = draw(st.integers(1, 4))
+    s = draw(st.one_of(st.integers(1, 4), st.integers(1, 4), st.sampled_from([5, 6, 7, 10])))
     if regime == 'small':
         m = draw(st.integers(1, 60))
         k = draw(st.integers(0, 6))
@@ -53,7 +53,7 @@ def case_strategy(draw):
         t = draw(st.sampled_from([0, 1, m - 1, 1023, 1024, 1025, 1026]))
         t = min(t, m - 1)
     nbad = draw(st.integers(0, 4))
-    bad = [[draw(st.sampled_from(['few', 'many', 'empty', 'single'])),
+    bad = [[draw(st.sampled_from(['few', 'many', 'empty', 'single', 'openquote'])),
             draw(st.sampled_from(['first', 'last', 'rand'])), draw(st.integers(0, 10**6))] for _ in range(nbad)]
     return {'ncols': ncols, 'm': m, 's': s, 'k': k, 't': t, 'bad': bad, 'seed': draw(st.integers(0, 2**32 - 1)),
             'trail': draw(st.integers(0, 3)), 'offgrid_bad': draw(st.booleans()), 'final_newline': draw(st.sampled_from([True, True, False])),
@@ -61,6 +61,23 @@ def case_strategy(draw):
             'header_rows': draw(st.lists(st.integers(0, 10**6), max_size=2)) if draw(st.integers(0, 3)) == 0 else [],
             'pairwise': draw(st.booleans()), 'annot': draw(st.booleans()), 'label_pos': draw(st.integers(0, ncols - 1)),
             'order': draw(st.sampled_from([1, 1, 2])) if regime == 'small' else 1}
+
+
+@st.composite
+def long_case_strategy(draw):
+    """Files of 66 000 - 140 000 lines (more than any 2^16-line read block) with subsampling factors that do not divide a power of two."""
+    ncols = draw(st.integers(2, 3))
+    s = draw(st.sampled_from([3, 5, 6, 7, 10]))
+    total = draw(st.integers(66000, 140000))
+    V = total // s
+    m = draw(st.integers(3000, 12000))
+    nbad = draw(st.integers(0, 3))
+    bad = [[draw(st.sampled_from(['few', 'many', 'empty', 'single', 'openquote'])),
+            draw(st.sampled_from(['first', 'last', 'rand'])), draw(st.integers(0, 10**6))] for _ in range(nbad)]
+    return {'ncols': ncols, 'm': m, 's': s, 'k': V // m, 't': V % m, 'bad': bad, 'seed': draw(st.integers(0, 2**32 - 1)),
+            'trail': draw(st.integers(0, 3)), 'offgrid_bad': draw(st.booleans()), 'final_newline': draw(st.sampled_from([True, True, False])),
+            'heuristic': 'MI-numba-randomized', 'header_rows': [], 'pairwise': draw(st.booleans()), 'annot': False,
+            'label_pos': draw(st.integers(0, ncols - 1)), 'order': 1, 'long': True}
 
 
 def render(row):
@@ -90,6 +107,13 @@ def build_lines(case):
             return render(r + ['extra'])
         if kind == 'empty':
             return ''
+        if kind == 'openquote':
+            # a stray quote opening a (non-last) field and never closed: the rest of THIS line is one field -> too few fields
+            j = int(rng.integers(0, ncols - 1))
+            plain = ['a', 'b', 'c', '1', '2']
+            parts = [plain[int(rng.integers(0, 5))] for _ in range(ncols)]
+            parts[j] = '"' + parts[j]
+            return ','.join(parts)
         return 'lonely' if ncols != 1 else 'a,b'
     selected = [render(valid_row()) for _ in range(V)]
     for r in case.get('header_rows', []):
@@ -102,7 +126,7 @@ def build_lines(case):
     for sel in selected:
         for _ in range(s - 1):
             if case['offgrid_bad'] and rng.random() < 0.3:
-                lines.append(malformed(['few', 'many', 'empty'][int(rng.integers(0, 3))]))
+                lines.append(malformed(['few', 'many', 'empty', 'openquote'][int(rng.integers(0, 4))]))
             else:
                 lines.append(render(valid_row()))
         lines.append(sel)
@@ -200,7 +224,11 @@ def oracle(case, rec):
         rec.cls('data-row-equal-to-header')
     if not case.get('final_newline', True):
         rec.cls('no-final-newline')
-    rec.cls('h=' + case['heuristic'])
+    rec.cls('h=' + case['heuristic'], 's=%d' % s if s <= 4 else 's>=5')
+    if len(lines) > 65536:
+        rec.cls('file>65536-lines')
+    if any(b[0] == 'openquote' for b in case['bad']):
+        rec.cls('malformed:unclosed-quote')
     tmp = tempfile.mkdtemp(prefix='c08-')
     old_cwd = os.getcwd()
     orig_cbr = cr.compute_batch_ranking
@@ -326,9 +354,10 @@ def _first_diff(got, exp):
     return 'no difference'
 
 
-KINDS = ['C08/stream', 'C08/rows', 'C08/invalid-count', 'C08/median', 'C08/checkpoint', 'C08/output', 'C08/order', 'C08/counts']
+KINDS = ['C08/stream', 'C08/long-file', 'C08/rows', 'C08/invalid-count', 'C08/median', 'C08/checkpoint', 'C08/output', 'C08/order', 'C08/counts']
 ORACLES = {k: oracle for k in KINDS}
 
 
 def run(ctx):
-    drive(ctx, [Clause('C08/stream', case_strategy, oracle, quick=480, thorough=24000, quick_shards=16)])
+    drive(ctx, [Clause('C08/stream', case_strategy, oracle, quick=480, thorough=24000, quick_shards=16),
+                Clause('C08/long-file', long_case_strategy, oracle, quick=16, thorough=480, quick_shards=16)])
